@@ -950,3 +950,209 @@ def clock_program(rng, pid, cfg, cs, n_ops, atime):
                 ops.append({"op": "truncate", "h": h})
     ops.append({"op": "unmount"})
     return {"id": pid, "cfg": cfg, "ops": ops, "origin": "clock"}
+
+
+# ------------------------------------------------------------------------------------------------
+# foreign volumes (image builder) - C08 / C10 / C11 / C20
+
+def _alias(i, long_name):
+    base = "".join(ch for ch in long_name.upper() if ch.isalnum() and ord(ch) < 128)[:4] or "X"
+    ext = ""
+    if "." in long_name:
+        ext = "".join(ch for ch in long_name.rsplit(".", 1)[1].upper() if ch.isalnum() and ord(ch) < 128)[:3]
+    b = (base + "~%d" % (i + 1))[:8]
+    return b.ljust(8) + ext.ljust(3)
+
+
+def _stamps(rng):
+    def d():
+        return ((rng.randrange(1980, 2108) - 1980) << 9) | (rng.randrange(1, 13) << 5) | rng.randrange(1, 29)
+
+    def t():
+        return (rng.randrange(24) << 11) | (rng.randrange(60) << 5) | rng.randrange(30)
+    return {"cd": d(), "ctm": t(), "cth": rng.randrange(200), "md": d(), "mtm": t(), "ad": d()}
+
+
+def foreign_tree(rng, cs, depth=0, n_entries=6, oem_high=False):
+    """abstract tree using encodings the library's writer never produces"""
+    entries = []
+    used = set()
+    for i in range(n_entries):
+        kind = rng.choice(["f", "f", "f", "d"]) if depth < 2 else "f"
+        e = {"kind": kind}
+        e.update(_stamps(rng))
+        r = rng.random()
+        if r < 0.45:
+            # long name + alias
+            nm = rng.choice(["Foreign File %d.txt", "readme-%d.markdown", "Übung %d.doc", "Жук %d", "a%d.b.c", "UPPER%d.TXT",
+                             "name with thirteen chars %d padded to 26!!", "x%d"]) % (i + depth * 10)
+            e["name"] = nm
+            e["sfn"] = _alias(i + depth * 10, nm)
+        elif r < 0.8:
+            # short name only, with NT lower-case flags
+            base = "".join(rng.choice("ABCDEFGHKLMNPQRSTUVWXYZ0123456789_-") for _ in range(rng.randrange(1, 9)))
+            ext = "".join(rng.choice("ABCDEFGH123") for _ in range(rng.randrange(0, 4)))
+            e["sfn"] = base.ljust(8) + ext.ljust(3)
+            e["nt"] = rng.choice([0, 8, 16, 24])
+        elif r < 0.9:
+            # 0x05 lead byte stands for 0xE5
+            e["sfn"] = [5] + [ord(c) for c in "E5NAME%d" % (i % 10)][:7] + [ord(c) for c in "BIN"]
+        else:
+            if oem_high and not any(isinstance(x.get("sfn"), list) and x["sfn"][0] == ord("O") for x in entries):
+                e["sfn"] = [ord("O"), 0x80 + i, 0x9A, ord("M"), 32, 32, 32, 32, ord("T"), 0xE1, 32]
+            else:
+                e["sfn"] = ("SFN%d" % i).ljust(8) + "   "
+        key = bytes(e["sfn"]) if isinstance(e["sfn"], list) else e["sfn"].encode()
+        if key in used:
+            continue
+        used.add(key)
+        # attributes: read-only, hidden, system, archive in all combinations
+        e["attr"] = rng.choice([0, 1, 2, 4, 0x20, 0x21, 0x27, 0x06])
+        # junk before the entry: deleted slots and orphaned (deleted) long-name runs
+        pre = []
+        if rng.random() < 0.3:
+            pre.append({"t": "del", "fill": rng.randrange(256)})
+        if rng.random() < 0.2:
+            pre.append({"t": "orphan", "name": "deleted long name %d.tmp" % i, "chk": rng.randrange(256)})
+        if pre:
+            e["pre"] = pre
+        if kind == "f":
+            e["size"] = rng.choice([0, 1, cs - 1, cs, cs + 1, 2 * cs, 3 * cs + 17])
+            e["pat"] = rng.randrange(1, 1000)
+            e["slack"] = rng.random() < 0.5
+        else:
+            e["children"] = foreign_tree(rng, cs, depth + 1, rng.randrange(0, 4), oem_high)
+            e["extra_clusters"] = rng.choice([0, 0, 1])
+            e["noend"] = rng.random() < 0.15
+        entries.append(e)
+    if depth == 0 and rng.random() < 0.7:
+        entries.insert(rng.randrange(len(entries) + 1), {"kind": "v", "sfn": "MY LABEL   "})
+    return entries
+
+
+def foreign_volume(rng, ft, quick=True):
+    bps = rng.choice([512, 512, 1024, 2048, 4096])
+    spc = rng.choice([1, 1, 2, 4] if ft != 12 else [1, 2])
+    if ft == 12:
+        n = rng.randrange(60, 200)
+    elif ft == 16:
+        n = rng.choice([4085, 4090, 5000, 65524])
+    else:
+        n = rng.choice([65525, 65530, 70000])
+    nfats = rng.choice([1, 2, 3])
+    vol = {"kind": "builder", "ft": ft, "bps": bps, "spc": spc, "n": n, "nfats": nfats,
+           "alloc": rng.choice(["asc", "desc", "interleave", "random"]), "seed": rng.randrange(1 << 30),
+           "media": rng.choice([0xF8, 0xF0]), "tail": rng.choice([0, 4096]), "slack_sectors": rng.randrange(0, spc)}
+    cs = bps * spc
+    eoc = {12: [0xFF8, 0xFFF, 0xFFB], 16: [0xFFF8, 0xFFFF, 0xFFFC], 32: [0x0FFFFFF8, 0x0FFFFFFF, 0x0FFFFFFA]}[ft]
+    vol["eoc"] = rng.sample(eoc, rng.randrange(1, 4))
+    if ft == 32:
+        vol["rsvd"] = rng.choice([32, 8, 64, 33])
+        vol["fis"] = rng.choice([1, 2, 5])
+        vol["bks"] = rng.choice([6, 7, 3])
+        if vol["fis"] == vol["bks"]:
+            vol["bks"] = 6 if vol["fis"] != 6 else 7
+        vol["rootc"] = rng.choice([2, 2, 3, 9])
+        vol["hi"] = rng.choice(["none", "pattern"])
+        vol["free_hi"] = rng.choice([0, 0, 0xC])
+        # the FSInfo values are advisory: stale counts are legal
+        vol["fsinfo"] = {"free": rng.choice(["exact", "unknown", "exact", "low", "high", 0, 1, n]), "next": rng.choice(["unknown", 2, 40, n + 1])}
+        if nfats > 1 and rng.random() < 0.5:
+            vol["mirror"] = False
+            vol["active"] = rng.randrange(nfats)
+        vol["root_extra_clusters"] = rng.choice([0, 1])
+    else:
+        vol["rsvd"] = rng.choice([1, 1, 2, 9])
+        vol["rootn"] = rng.choice([16, 32, 64, 512]) * (bps // 512)
+        vol["use_ts16"] = rng.random() < 0.7
+    bad = []
+    if rng.random() < 0.5:
+        a = rng.randrange(10, 30)
+        bad.append([a, a + rng.randrange(0, 3)])
+    vol["bad"] = bad
+    vol["pad"] = rng.choice(["eoc", "eoc", "zero"])
+    vol["extra_fat_sectors"] = rng.choice([0, 0, 1])
+    oem = rng.choice(["lossy", "latin1"])
+    vol["oem"] = oem
+    vol["tree"] = foreign_tree(rng, cs, 0, rng.randrange(3, 8), oem_high=True)
+    return vol, cs, oem
+
+
+def _names_of(tree, prefix=""):
+    """(path, kind, lookup names) of the entries of a foreign tree, for targeted operations"""
+    out = []
+    for e in tree:
+        if e["kind"] == "v":
+            continue
+        if "name" in e:
+            nm = e["name"]
+        else:
+            raw = e["sfn"] if isinstance(e["sfn"], str) else None
+            if raw is None:
+                continue  # OEM / 0x05 names: not addressed by the generator
+            b, x = raw[:8].rstrip(), raw[8:].rstrip()
+            nm = b + ("." + x if x else "")
+        out.append((prefix + nm, e["kind"]))
+        if e["kind"] == "d":
+            out += _names_of(e.get("children", []), prefix + nm + "/")
+    return out
+
+
+def foreign_program(rng, pid, vol, cs, oem, n_ops=12):
+    cfg = {"vol": vol, "oem": oem}
+    known = _names_of(vol["tree"])
+    files = [p for p, k in known if k == "f"]
+    dirs = [p for p, k in known if k == "d"]
+    ops = [{"op": "stats"}, {"op": "info"}, {"op": "status"}, {"op": "list", "at": "", "path": ""}]
+    n = 0
+    open_h = {}
+    for _ in range(n_ops):
+        r = rng.random()
+        n += 1
+        if r < 0.25 and files:
+            f = rng.choice(files)
+            if f in open_h.values():
+                continue
+            h = "h%d" % n
+            ops.append({"op": "open_file", "at": "", "path": f if rng.random() < 0.6 else f.swapcase(), "as": h})
+            ops.append({"op": "read_all", "h": h, "len": 4 * cs})
+            ops.append({"op": "extents", "h": h})
+            a = rng.random()
+            if a < 0.3:
+                ops.append({"op": "seek", "h": h, "from": "end", "off": 0})
+                ops.append({"op": "write_all", "h": h, "pat": n, "len": rng.choice([1, cs, cs + 3])})
+            elif a < 0.5:
+                ops.append({"op": "seek", "h": h, "from": "start", "off": rng.choice([0, 1, cs])})
+                ops.append({"op": "truncate", "h": h})
+            elif a < 0.6:
+                ops.append({"op": "seek", "h": h, "from": "start", "off": 0})
+                ops.append({"op": "write_all", "h": h, "pat": n, "len": rng.choice([1, cs])})
+            ops.append({"op": "close", "h": h})
+        elif r < 0.4:
+            d = rng.choice([""] + [x + "/" for x in dirs])
+            ops.append({"op": "create_file", "at": "", "path": d + "new file %d.txt" % n, "as": "c%d" % n})
+            ops.append({"op": "write_all", "h": "c%d" % n, "pat": n, "len": rng.choice([0, 5, cs + 1])})
+            ops.append({"op": "close", "h": "c%d" % n})
+        elif r < 0.5:
+            d = rng.choice([""] + [x + "/" for x in dirs])
+            ops.append({"op": "create_dir", "at": "", "path": d + "newdir%d" % n})
+        elif r < 0.65 and files:
+            f = rng.choice(files)
+            ops.append({"op": "remove", "at": "", "path": f})
+            files.remove(f)
+        elif r < 0.8 and files:
+            f = rng.choice(files)
+            d = rng.choice([""] + [x + "/" for x in dirs])
+            g = d + "moved %d.dat" % n
+            ops.append({"op": "rename", "at": "", "src": f, "to": "", "dst": g})
+            files.remove(f)
+            files.append(g)
+        elif r < 0.9 and dirs:
+            ops.append({"op": "list", "at": "", "path": rng.choice(dirs)})
+        else:
+            ops.append({"op": "stats"})
+    ops.append({"op": rng.choice(["unmount", "dropfs"])})
+    ops.append({"op": "list", "at": "", "path": ""})
+    ops.append({"op": "stats"})
+    ops.append({"op": "unmount"})
+    return {"id": pid, "cfg": cfg, "ops": ops, "origin": "foreign"}
